@@ -53,7 +53,18 @@ func PeekNS() int64 { return Base + atomic.LoadInt64(&clock) }
 func AdvanceNS(d int64) { atomic.AddInt64(&clock, d) }
 
 // ResetClock puts the clock back to 0 (between executions).
-func ResetClock() { atomic.StoreInt64(&clock, 0) }
+func ResetClock() { atomic.StoreInt64(&clock, 0); atomic.StoreInt64(&stall, 0) }
+
+// stall accumulates the virtual time that passed in clock advances taken while some thread was
+// runnable: the explorer letting a runnable thread stand still for that long (a deviation). Time
+// that passes while every thread waits for a timer is the program's own waiting and not a stall.
+var stall int64
+
+// StallNS returns the accumulated stall time. A model of a real-time bound (the clients' read
+// timeout) measures elapsed time minus stall: an arbitrarily slow thread is legitimate asynchrony,
+// a request that times out only because the explorer held its thread for seconds is an
+// environment fault that no statement about a stable cluster covers.
+func StallNS() int64 { return atomic.LoadInt64(&stall) }
 
 func setAtLeast(t int64) {
 	if PeekNS() < t {
@@ -351,6 +362,11 @@ func (s *Sched) dispatch(from *Thread) {
 		s.x.Choices = append(s.x.Choices, choice)
 		id := en[choice]
 		if id == TimeID {
+			if len(en) > 1 {
+				if d := next - PeekNS(); d > 0 {
+					atomic.AddInt64(&stall, d)
+				}
+			}
 			setAtLeast(next)
 			continue // choose again with the new clock
 		}
